@@ -18,6 +18,9 @@ DEDUCTIVE (the real functions are symbolically executed; network and database ar
  * `gap[g]` - the real `HierarchicalDeterministic.ensure_address_gap` / `_generate_keys` against the call-site contract of the
    address tables, ARBITRARY used_times: the last `gap` addresses are unused afterwards, indices are consecutive, nothing is
    generated when the gap is there, new addresses are announced (subscribed).
+   `gap.call-while-locked[g]` - two gap maintenances of one chain: the second is CALLED WHILE the first holds the generator lock
+   (it waits for the subscription reply) and a fresh, higher address got used meanwhile: the second call does not return before
+   it has looked at the chain; afterwards the gap is there beyond the highest used address.
  * `transaction_io.rows` - the real `Database._transaction_io` / `tx_to_row` / `txo_to_row` / `_insert_sql` on real
    `Transaction` objects with symbolic hashes and amounts: outputs paying the address and spends of the address are recorded,
    nothing foreign is booked on the address.
@@ -902,6 +905,87 @@ for _g in (1, 2, 3):
     make_gap_proof(_g)
 for _g in (4, 6, 20):
     make_gap_proof(_g, thorough=True)
+
+
+async def release_later(lock):
+    lock.release()
+
+
+async def gap_race_scenario(gap, m, used, fresh_offset, used_later):
+    ref = [None]
+    db = GapDb(ref)
+    ledger = GapLedger(db)
+    am = HierarchicalDeterministic(GapAccount(ledger), 1, gap, 1)
+    ref[0] = am
+    chain_key = GapKey((1,))
+    for i in range(m):
+        k = chain_key.child(i)
+        db.rows.append(dict(address=k.address, used_times=used[i], pubkey=k, chain=1))
+    db.rows.append(dict(address='other-chain', used_times=5, pubkey=GapKey((0, 0)), chain=0))
+    # task 1: the real call; it has read the chain, written its keys and now waits for the server's reply to the subscription
+    # of the new addresses (announce_addresses) ...
+    new1 = await am.ensure_address_gap()
+    await am.address_generator_lock.acquire()       # ... STILL HOLDING the generator lock: that state is restored here
+    chain = [r for r in db.rows if r['chain'] == 1]
+    if fresh_offset >= 0:       # meanwhile the update of a HIGHER, fresh address of the chain has stored its history
+        chain[len(chain) - gap + fresh_offset]['used_times'] = used_later
+    reply = asyncio.ensure_future(release_later(am.address_generator_lock))    # the reply arrives later: task 1 returns, lock released
+    new2 = await am.ensure_address_gap()            # task 2: gap maintenance of that other update, CALLED WHILE THE LOCK IS HELD
+    await reply
+    after = [(r['pubkey'].n, r['used_times'], r['address']) for r in db.rows if r['chain'] == 1]
+    return new1, new2, after, ledger.announced, db.writes_without_lock, am.address_generator_lock.locked(), len(chain)
+
+
+def make_gap_race_proof(gap):
+    M = gap + 2
+
+    class GapRace:
+        inputs = dict(m=TOneOf(*[TConst(i) for i in range(M + 1)]), used=TList(TInt(0, 1000), n=M),
+                      fresh_offset=TOneOf(*[TConst(i) for i in range(-1, gap)]), used_later=TInt(1, 1000))
+        note = f"gap {gap}: chain lengths 0..{M} x every used/unused pattern x which fresh address gets used meanwhile (or none)"
+
+        def run(m, used, fresh_offset, used_later):
+            return gap_race_scenario(gap, m, used, fresh_offset, used_later)
+
+        def ensures_gap_established_although_called_while_locked(fresh_offset, result):
+            new1, new2, after, announced, unlocked_writes, locked, before2 = result
+            ok = len(after) >= gap and unlocked_writes == 0 and locked == False     # noqa
+            for r in after[len(after) - gap:]:
+                ok = ok and r[1] == 0
+            for i in range(len(after)):
+                ok = ok and after[i][0] == i and after[i][2] == 'address/1/%d' % i
+            # the chain reaches `gap` beyond the fresh address that was used meanwhile
+            return ok and (fresh_offset < 0 or len(after) >= (before2 - gap + fresh_offset) + 1 + gap)
+
+        def ensures_second_call_generates_and_announces_exactly_the_rest(fresh_offset, result):
+            new1, new2, after, announced, unlocked_writes, locked, before2 = result
+            ok = len(after) == before2 + len(new2) and announced == ([new1] if new1 else []) + ([new2] if new2 else [])
+            for k in range(len(new2)):
+                ok = ok and new2[k] == 'address/1/%d' % (before2 + k)
+            return ok and (fresh_offset >= 0 or new2 == [])
+
+        def samples():
+            import itertools
+            for m in range(M + 1):
+                for pat in itertools.product([0, 2], repeat=m):
+                    for off in range(-1, gap):
+                        yield dict(m=m, used=list(pat) + [0] * (M - m), fresh_offset=off, used_later=3)
+
+    GapRace.__doc__ = (
+        f"Two gap maintenances of one chain, gap {gap}, both the real HierarchicalDeterministic.ensure_address_gap/_generate_keys on the "
+        f"stateful fake address table: task 1 runs on an ARBITRARY chain (0..{M} addresses, any used_times), writes its keys and waits for "
+        f"the reply to the subscription of the new addresses, holding the generator lock; meanwhile another update marks one of the fresh "
+        f"addresses (any of the last {gap}, or none) used and calls ensure_address_gap - WHILE THE LOCK IS HELD.  That call does not return "
+        f"before the lock was released and it has looked at the chain: afterwards the last {gap} addresses are unused, indices are "
+        f"consecutive, the chain reaches {gap} beyond the address used meanwhile, the second call generated and announced exactly the "
+        f"missing addresses (nothing when nothing got used), keys were written under the lock and the lock is free.  (Task 1's wait is "
+        f"represented by re-taking the lock after its writes - a task suspended inside an await cannot be held on the symbolic side; the "
+        f"reply is a task that releases the lock.)")
+    proof("C09", f"gap.call-while-locked[{gap}]")(GapRace)
+
+
+for _g in (1, 2, 3):
+    make_gap_race_proof(_g)
 
 
 # ====================================================================== (e) what _transaction_io writes for one address
@@ -1818,10 +1902,11 @@ async def run_sync(seed, gaps=(4, 3), stages=4, mode='mixed', third_party_script
 
 class _Convergence:
     bounded_only = True
-    inputs = dict(seed=TInt(0, 10 ** 9), recv_gap=TInt(1, 100), change_gap=TInt(1, 100), stages=TInt(1, 20), mode=TStr(), in_flight=TInt(0, 20))
+    inputs = dict(seed=TInt(0, 10 ** 9), recv_gap=TInt(1, 100), change_gap=TInt(1, 100), stages=TInt(1, 20), mode=TStr(), in_flight=TInt(0, 20),
+                  held=TInt(0, 20))
 
-    def run(seed, recv_gap, change_gap, stages, mode, in_flight):
-        return asyncio.run(run_sync(seed, (recv_gap, change_gap), stages, mode, None, None, in_flight))
+    def run(seed, recv_gap, change_gap, stages, mode, in_flight, held):
+        return asyncio.run(run_sync(seed, (recv_gap, change_gap), stages, mode, None, None, in_flight, held))
 
     def ensures_wallet_equals_the_oracle(result):
         return result == []
@@ -1836,7 +1921,11 @@ CONVERGENCE_DOC = (
     "update_history calls, or withheld and delivered stale after the next stage; with in_flight > 0 the server also accepts a payment to "
     "an address (usually re-spent at once) right AFTER answering get_history / get_transaction_batch of the running update of that very "
     "address and notifies immediately, i.e. while that update holds the address lock (in the last stage on every request, so that "
-    "nothing later can repair a lost notification).  Every status is notified ONCE.  Oracle from the chain definition (final server "
+    "nothing later can repair a lost notification); with held > 0 the reply to the subscription of freshly generated addresses - awaited "
+    "by ensure_address_gap under the generator lock - is held back until the address that was the end of the chain (and the one `gap` "
+    "beyond it) has been paid, notified, stored and its update has reached gap maintenance, and a last deterministic round per chain does "
+    "the same from the lowest fresh address, after which nothing can repair a chain left short.  Every status is notified ONCE.  "
+    "Oracle from the chain definition (final server "
     "state): stored history of every address == server history; balance / balance incl. claims / detailed balance (claims and supports "
     "apart) / confirmed balance; get_utxos() ids; stored heights; addresses consecutive, the last `gap` of each chain unused, enough of "
     "them for the furthest payment, all subscribed; no update task raised. ")
@@ -1844,7 +1933,7 @@ CONVERGENCE_DOC = (
 
 def _cases_gaps43(n):
     for seed in range(n):
-        yield dict(seed=seed, recv_gap=4, change_gap=3, stages=4, mode='mixed', in_flight=3 if seed % 3 == 0 else 0)
+        yield dict(seed=seed, recv_gap=4, change_gap=3, stages=4, mode='mixed', in_flight=3 if seed % 3 == 0 else 0, held=2 if seed % 8 == 1 else 0)
 
 
 def _cases_modes(reps):
@@ -1854,19 +1943,28 @@ def _cases_modes(reps):
             for mode in ('sequential', 'concurrent', 'gather', 'deferred'):
                 k += 1
                 if (k + rep) % 2 == 0 or rep >= 4:
-                    yield dict(seed=1000 + k, recv_gap=gaps[0], change_gap=gaps[1], stages=3 + k % 4, mode=mode, in_flight=2 * (k % 2))
+                    yield dict(seed=1000 + k, recv_gap=gaps[0], change_gap=gaps[1], stages=3 + k % 4, mode=mode, in_flight=2 * (k % 2),
+                               held=1 if k % 8 == 0 else 0)
 
 
 def _cases_default_gaps(n):
     for seed in range(n):
-        yield dict(seed=5000 + seed, recv_gap=20, change_gap=6, stages=4, mode='mixed', in_flight=2 if seed % 4 == 0 else 0)
+        yield dict(seed=5000 + seed, recv_gap=20, change_gap=6, stages=4, mode='mixed', in_flight=2 if seed % 4 == 0 else 0,
+                   held=1 if seed % 6 == 1 else 0)
 
 
 def _cases_in_flight(n):
     for seed in range(n):
         gaps = ((4, 3), (3, 2), (2, 1))[seed % 3]
         yield dict(seed=7000 + seed, recv_gap=gaps[0], change_gap=gaps[1], stages=3 + seed % 2,
-                   mode=('mixed', 'concurrent', 'sequential', 'gather')[seed % 4], in_flight=2 + seed % 3)
+                   mode=('mixed', 'concurrent', 'sequential', 'gather')[seed % 4], in_flight=2 + seed % 3, held=0)
+
+
+def _cases_held(n):
+    for seed in range(n):
+        gaps = ((4, 3), (3, 2), (2, 2), (6, 4))[seed % 4]
+        yield dict(seed=8000 + seed, recv_gap=gaps[0], change_gap=gaps[1], stages=2 + seed % 3,
+                   mode=('mixed', 'concurrent', 'sequential', 'gather', 'deferred')[seed % 5], in_flight=(0, 0, 2)[seed % 3], held=1 + seed % 3)
 
 
 def _convergence_proof(name, doc, note, cases, thorough=False):
@@ -1875,7 +1973,7 @@ def _convergence_proof(name, doc, note, cases, thorough=False):
 
 
 _convergence_proof("sync.convergence[gaps 4/3]", "Receiving gap 4, change gap 3, 4 stages, mixed delivery; every third seed with in-flight growth.",
-                   "48 seeds: chains of 4..16 transactions, 20..50 addresses", lambda: _cases_gaps43(48))
+                   "40 seeds: chains of 4..16 transactions, 20..50 addresses", lambda: _cases_gaps43(40))
 _convergence_proof("sync.convergence[modes]", "Each delivery mode on its own, gaps 2/1 .. 6/4, 3..6 stages; every second case with in-flight growth.",
                    "48 cases: 4 delivery modes x gaps (2,1) (3,2) (5,2) (6,4), own seeds", lambda: _cases_modes(5))
 _convergence_proof("sync.convergence[default gaps 20/6]", "The default gaps of an account: receiving 20, change 6.",
@@ -1883,7 +1981,13 @@ _convergence_proof("sync.convergence[default gaps 20/6]", "The default gaps of a
 _convergence_proof("sync.convergence[in-flight growth]",
                    "Every case with in-flight growth: 2..4 payments (mostly re-spent at once) to the address whose update is running, notified "
                    "while that update holds the lock; gaps 4/3, 3/2, 2/1; all delivery modes.",
-                   "48 seeds", lambda: _cases_in_flight(48))
+                   "40 seeds", lambda: _cases_in_flight(40))
+_convergence_proof("sync.convergence[held subscription reply]",
+                   "Every case with held-back subscription replies (gap maintenance of one chain called while another one of the same chain "
+                   "is in flight), gaps 4/3, 3/2, 2/2, 6/4; all delivery modes; every third case also with in-flight growth.",
+                   "28 seeds", lambda: _cases_held(28))
+_convergence_proof("sync.convergence.more[held subscription reply]", "Thorough tier: more seeds of sync.convergence[held subscription reply].",
+                   "400 seeds (300 s budget)", lambda: _cases_held(400), True)
 _convergence_proof("sync.convergence.more[gaps 4/3]", "Thorough tier: more seeds of sync.convergence[gaps 4/3].", "700 seeds (300 s budget)",
                    lambda: _cases_gaps43(700), True)
 _convergence_proof("sync.convergence.more[modes]", "Thorough tier: more cases of sync.convergence[modes].", "528 cases (300 s budget)",
